@@ -17,11 +17,15 @@ ClaimCases == { [k |-> "claim", f |-> q[1], name |-> q[2], head |-> q[3], extra 
 \* K siblings, then a nest that reaches exactly the limit / one beyond (msgpack: the outer array16 announces 9 items: 8 siblings + nest)
 SiblingCases == { [k |-> "sibling", f |-> q[1], sib |-> q[2], item |-> q[3], open |-> q[4], close |-> q[5], count |-> (IF q[1] = "msgpack" THEN 8 ELSE n),
                    limit |-> l, depth |-> l + dd, accept |-> AcceptDepth(l + dd, l)] : q \in Siblings, n \in {1, 3, 8}, l \in {4, 5, 16}, dd \in {0, 1} }   \* limits above the depth of the siblings themselves (at most 3 with the outer array)
+\* encoders: an outer array of `count` sibling containers (arrays / objects of one element), then one nest down to `depth`: the nesting counter
+\* must come back down after every sibling, so the verdict depends on the deepest nest only (AcceptDepth), never on how many were closed
+EncSiblingCases == { [k |-> "enc-sibling", f |-> f, kind |-> kd, count |-> n, limit |-> l, depth |-> d, accept |-> AcceptDepth(d, l)]
+                     : f \in EncoderFormats, kd \in {"array", "object"}, n \in {1, 3, 12}, l \in {2, 3, 8}, d \in {2, 3, 4, 8, 9} }
 DeepCases == { [k |-> "deep", op |-> o, depth |-> d] : o \in {"copy", "compare", "dump", "destroy", "parse-destroy"}, d \in {1024} } \cup
              { [k |-> "deep", op |-> "destroy", depth |-> 1000000], [k |-> "deep", op |-> "destroy-object", depth |-> 200000],
                [k |-> "deep", op |-> "destroy-alternating", depth |-> 200000], [k |-> "deep", op |-> "destroy-alternating-ojson", depth |-> 200000],
                [k |-> "deep", op |-> "copy-alternating", depth |-> 1024], [k |-> "deep", op |-> "dump-alternating", depth |-> 1024] }
-All == {x \in DepthCases : x.depth \in Depths(x.limit)} \cup {x \in EncCases : x.depth \in Depths(x.limit)} \cup ItemCases \cup ClaimCases \cup DeepCases \cup SiblingCases
+All == {x \in DepthCases : x.depth \in Depths(x.limit)} \cup {x \in EncCases : x.depth \in Depths(x.limit)} \cup ItemCases \cup ClaimCases \cup DeepCases \cup SiblingCases \cup {x \in EncSiblingCases : x.depth \in {x.limit, x.limit + 1}}
 Init == phase = 0 /\ c = [k |-> "none"]
 Next == phase = 0 /\ phase' = 1 /\ c' \in All
 Emit == phase = 1 => PrintT(ToJson(c))
